@@ -4,6 +4,12 @@ package main
 // most documents are well formed and have a denotation (declared prefixes, references inside the
 // safe fragment of the model's resolver), a small share is not (undeclared prefix, `1.`, `GRAPH {`,
 // empty predicate-object pair …) so that the reject paths of T3 are exercised too.
+//
+// Relative references are drawn half of the time from a small per-document pool (`relPool`), so that
+// one reference TEXT recurs in term position under different bases (default base, @base, BASE, in any
+// order); one document in eight is `baseHeavy` (mostly base directives, mostly relative IRIREF terms).
+// The references include the empty-query forms `?` and `?#f`.  basechg.go adds a bounded family of
+// such histories that does not depend on the seed.
 
 import (
 	"strings"
@@ -50,6 +56,12 @@ type dgen struct {
 	bad      bool     // this document may contain shapes that are not well formed / have no denotation
 	boolPfx  bool     // this document may use a prefix label starting with true / false
 	depth    int
+	// relPool: a few relative references the document keeps re-using, so that the SAME reference text
+	// stands in term position on both sides of a base change (a reader that remembers resolved
+	// references by their text must forget them at every @base / BASE)
+	relPool []string
+	// baseHeavy: most directives of this document are base directives and most IRIREF terms are relative
+	baseHeavy bool
 }
 
 func (g *dgen) absIRI() string {
@@ -70,8 +82,16 @@ func (g *dgen) absIRI() string {
 	return s
 }
 
+// relIRI: a relative reference; about half of them come from the document's pool.
 func (g *dgen) relIRI() string {
-	switch g.r.Intn(10) {
+	if len(g.relPool) > 0 && g.r.Chance(45) {
+		return vh.Pick(g.r, g.relPool)
+	}
+	return g.freshRel()
+}
+
+func (g *dgen) freshRel() string {
+	switch g.r.Intn(11) {
 	case 0:
 		return ""
 	case 1:
@@ -90,6 +110,12 @@ func (g *dgen) relIRI() string {
 		return vh.Pick(g.r, safeSegs) + "/../../" + vh.Pick(g.r, safeSegs)
 	case 8:
 		return vh.Pick(g.r, safeSegs) + "/"
+	case 9:
+		// empty query component: replaces the query of the base (RFC 3986 5.2.2: query defined, though empty)
+		if g.r.Bool() {
+			return "?"
+		}
+		return "?#" + vh.Pick(g.r, safeSegs)
 	}
 	return vh.Pick(g.r, safeSegs)
 }
@@ -100,6 +126,8 @@ var exoticIRIs = []string{"http://e/é", "http://e/\U0001F41B", "http://e/%C3%A9
 
 func (g *dgen) termRef() string {
 	switch {
+	case g.hasBase && g.baseHeavy && g.r.Chance(60):
+		return g.relIRI()
 	case g.hasBase && g.r.Chance(40):
 		return g.relIRI()
 	case !g.hasBase && g.r.Chance(12):
@@ -114,6 +142,8 @@ func (g *dgen) termRef() string {
 
 func (g *dgen) iri() iriS {
 	switch {
+	case g.baseHeavy && g.hasBase && g.r.Chance(60):
+		return ref(g.termRef())
 	case len(g.declared) > 0 && g.r.Chance(50):
 		return pn(vh.Pick(g.r, g.declared), g.local())
 	case g.bad && g.r.Chance(10):
@@ -310,7 +340,11 @@ func (g *dgen) baseIRI() string {
 }
 
 func (g *dgen) directive() block {
-	switch g.r.Intn(10) {
+	k := g.r.Intn(10)
+	if g.baseHeavy && g.r.Chance(70) {
+		k = 6 + g.r.Intn(4)
+	}
+	switch k {
 	case 0, 1, 2:
 		p := vh.Pick(g.r, g.pool)
 		g.declared = append(g.declared, p)
@@ -363,6 +397,10 @@ func genDoc(r *vh.Rng, trigDoc, hasBase bool) doc {
 	for i := 0; i < 3; i++ {
 		g.pool = append(g.pool, vh.Pick(r, prefixLabels))
 	}
+	g.baseHeavy = r.Chance(12)
+	for i, n := 0, 2+r.Intn(2); i < n; i++ {
+		g.relPool = append(g.relPool, g.freshRel())
+	}
 	if r.Chance(2) {
 		// known class pname-prefix-space: U+1680 is PN_CHARS_BASE and white space for unicode.IsSpace
 		g.pool[0] = vh.Pick(r, []string{"\u1680", "\u1680p", "p\u1680", "p\u1680q"})
@@ -379,8 +417,12 @@ func genDoc(r *vh.Rng, trigDoc, hasBase bool) doc {
 	}
 	if r.Chance(75) {
 		for i, n := 0, 1+r.Intn(2); i < n; i++ {
+			// the header holds prefix directives (a base-heavy document may start with a base directive);
+			// a discarded base directive must not leave `hasBase` set
+			hb := g.hasBase
 			b := g.directive()
-			for b.d.kind == dBaseAt || b.d.kind == dBaseKw {
+			for !g.baseHeavy && (b.d.kind == dBaseAt || b.d.kind == dBaseKw) {
+				g.hasBase = hb
 				b = g.directive()
 			}
 			d = append(d, b)
